@@ -1,5 +1,5 @@
 #!/usr/bin/env python3
-"""shapes_selftest.py: sensitivity self-test of the translator section `flow_shapes`.
+"""dev_shapes_selftest.py: sensitivity self-test of the translator sections `flow_shapes` and `grid_shapes`.
 
 For each realistic small edit of the C++ source listed in EDITS: copy <repo>/include to a temporary
 directory, apply the edit (plain string replacement; the original text must be present), run
@@ -7,7 +7,7 @@ translate.py against the copy (FS_REPO=<copy>, FS_GENERATED_OUT=<temporary Gener
 check that at least one fact of the expected group(s) `shapesCxx` comes out `false`, while on the
 unedited copy every fact is `true`.  The model's own Generated.lean is never touched.
 
-usage: FS_REPO=/tmp/repo_clean python3 shapes_selftest.py
+usage: FS_REPO=/tmp/repo_pristine_head python3 dev_shapes_selftest.py
 exit status 0 iff every edit is detected (and the unedited copy is all-true).
 """
 import os
@@ -19,7 +19,8 @@ import tempfile
 
 HERE = os.path.dirname(os.path.abspath(__file__))
 REPO = os.environ.get("FS_REPO", "/tmp/repo_clean")
-GROUPS = ["C01", "C02", "C03", "C04", "C05", "C06", "C12", "C13", "C14", "C15", "C19"]
+GROUPS = sorted(["C01", "C02", "C03", "C04", "C05", "C06", "C12", "C13", "C14", "C15", "C19",   # flow_shapes
+                 "C07", "C08", "C10", "C11", "C16", "C17", "C18", "C20"])                        # grid_shapes
 
 ROUTER = "flow/flow_router.hpp"
 PFLOOD = "algo/pflood.hpp"
@@ -29,6 +30,16 @@ UF = "utils/union_find.hpp"
 RESOLVER = "flow/sink_resolver.hpp"
 SPL = "eroders/spl.hpp"
 ADI = "eroders/diffusion_adi.hpp"
+RASTER = "grid/raster_grid.hpp"
+BASE = "grid/base.hpp"
+PROFILE = "grid/profile_grid.hpp"
+XCONT = "utils/xtensor_containers.hpp"
+ITER = "utils/iterators.hpp"
+INL = "flow/impl/flow_graph_inl.hpp"
+POOL = "utils/impl/thread_pool_inl.hpp"
+SNAP = "flow/flow_snapshot.hpp"
+OPS = "flow/flow_operator.hpp"
+MESH = "grid/trimesh.hpp"
 
 # (label, file, original text, replacement, which occurrence (0-based), groups in which a fact must flip)
 EDITS = [
@@ -149,6 +160,113 @@ EDITS = [
      "xt::transpose(m_factors_col, tranposed_dims),", "m_factors_col,", 0, ["C14"]),
     ("adi: erosion sign flipped", ADI, "erosion_v = elevation - xt::transpose(elevation_next);",
      "erosion_v = xt::transpose(elevation_next) - elevation;", 0, ["C14"]),
+    # ================= grid_shapes =================
+    # ---- neighbours (C07)
+    ("raster: neighbour index uses nrows instead of ncols", RASTER,
+     "static_cast<size_type>((offset)[0]) * m_shape[1]", "static_cast<size_type>((offset)[0]) * m_shape[0]", 0, ["C07"]),
+    ("raster: unravel divides by nrows", RASTER, "size_type row = idx / ncols;", "size_type row = idx / m_shape[0];", 0, ["C07"]),
+    ("raster: count looked up by index instead of node code", RASTER,
+     "return m_neighbors_count[m_nodes_codes[idx]];", "return m_neighbors_count[idx];", 0, ["C07"]),
+    ("distance: sum without squares", XCONT, "xt::sum(xt::square(drc))", "xt::sum(drc)", 0, ["C07"]),
+    ("distance: zero offsets also count", XCONT, "xt::equal(xt::adapt(offset), 0), 0., 1.)", "xt::equal(xt::adapt(offset), 0), 1., 1.)", 0, ["C07"]),
+    ("cache: row returned without testing `has`", BASE, "if (m_neighbors_indices_cache.has(idx))", "if (true)", 0, ["C07"]),
+    ("cache: `has` inverted", BASE, "std::numeric_limits<std::size_t>::max() ? false : true;", "std::numeric_limits<std::size_t>::max() ? true : false;", 0, ["C07"]),
+    ("pass-through buffer no longer thread_local", BASE,
+     "static thread_local neighbors_indices_type node_neighbors;", "static neighbors_indices_type node_neighbors;", 0, ["C07"]),
+    ("neighbors(idx, out): status of the node instead of the neighbour", BASE,
+     "neighbor({ n_idx, n_distances[i], nodes_status()(n_idx) });", "neighbor({ n_idx, n_distances[i], nodes_status()(idx) });", 0, ["C07"]),
+    ("neighbors(idx, out): output not resized", BASE, "neighbors.resize({ n_count });", "", 0, ["C07"]),
+    ("profile: looped left end wraps to size - 2", PROFILE, "neighbors[0] = m_size - 1;", "neighbors[0] = m_size - 2;", 0, ["C07"]),
+    # ---- table sizes, iterator (C08)
+    ("graph impl: single-flow receivers width 2", GRAPH, "n_receivers_max = 1;", "n_receivers_max = 2;", 0, ["C08"]),
+    ("graph impl: donors width without the + 1", GRAPH,
+     "{ grid.size(), grid_type::n_neighbors_max() + 1 };", "{ grid.size(), grid_type::n_neighbors_max() };", 0, ["C08"]),
+    ("graph impl: bfs levels sized to grid size", GRAPH,
+     "m_bfs_levels = xt::ones<size_type>({ grid.size() + 1 }) * -1;", "m_bfs_levels = xt::ones<size_type>({ grid.size() }) * -1;", 0, ["C08"]),
+    ("iterator ctor: filter called before the bounds test", ITER,
+     "while ((m_idx < m_grid.size()) && (!m_filter_func(m_grid, m_idx)))", "while ((!m_filter_func(m_grid, m_idx)) && (m_idx < m_grid.size()))", 0, ["C08"]),
+    ("iterator ++: bounds test `<` -> `<=`", ITER,
+     "} while ((m_idx < m_grid.size()) && (!m_filter_func(m_grid, m_idx)));", "} while ((m_idx <= m_grid.size()) && (!m_filter_func(m_grid, m_idx)));", 0, ["C08"]),
+    ("iterator --: `m_idx > 0` -> `m_idx >= 0`", ITER, "(m_idx > 0)", "(m_idx >= 0)", 0, ["C08"]),
+    # ---- kernel application (C10)
+    ("kernel seq: breadth_upstream uses the dfs indices", INL, "indices = &impl().bfs_indices();", "indices = &impl().dfs_indices();", 0, ["C10"]),
+    ("kernel par: breadth_upstream uses the any-order levels", INL, "levels = &impl().bfs_levels();", "levels = &impl().any_order_levels();", 0, ["C10"]),
+    ("kernel par: pool not resized to n_threads", INL, "m_thread_pool.resize(n_threads);", "", 0, ["C10"]),
+    ("kernel par: levels loop from 0", INL, "for (std::size_t i = 1; i < levels->size(); ++i)", "for (std::size_t i = 0; i < levels->size(); ++i)", 0, ["C10"]),
+    ("kernel par: `level_size <` -> `<=` min_level_size", INL, "if (level_size < kernel.min_level_size)", "if (level_size <= kernel.min_level_size)", 0, ["C10"]),
+    ("kernel par: every runner uses node data 0", INL, "auto n_data = node_data[runner];", "auto n_data = node_data[0];", 0, ["C10"]),
+    ("kernel par: setter dropped", INL, "kernel.node_data_setter(node_idx, n_data, data.data);", "", 0, ["C10"]),
+    ("kernel par: run_blocks without min_block_size", INL, "run, kernel.min_block_size);", "run);", 0, ["C10"]),
+    ("kernel seq: failure of the getter ignored", INL,
+     "if (kernel.node_data_getter(i, data.data, new_node_data))", "if (kernel.node_data_getter(i, data.data, new_node_data) && false)", 0, ["C10"]),
+    # ---- block partition (C11)
+    ("blocks: cap `>` -> `>=`", POOL, "if (m_num_blocks > total_size)", "if (m_num_blocks >= total_size)", 0, ["C11"]),
+    ("blocks: min-size test `<` -> `<=`", POOL, "if (total_size / m_num_blocks < min_size_)", "if (total_size / m_num_blocks <= min_size_)", 0, ["C11"]),
+    ("blocks: recomputation without max(1, .)", POOL,
+     "m_num_blocks = std::max(std::size_t{ 1 }, total_size / min_size_);", "m_num_blocks = total_size / min_size_;", 0, ["C11"]),
+    ("blocks: remainder dropped", POOL, "m_remainder = total_size % m_num_blocks;", "m_remainder = 0;", 0, ["C11"]),
+    ("blocks start: `block < m_remainder` -> `<=`", POOL, "block < m_remainder ? block : m_remainder", "block <= m_remainder ? block : m_remainder", 0, ["C11"]),
+    ("blocks end: last block test off by one", POOL, "(block == m_num_blocks - 1)", "(block == m_num_blocks)", 0, ["C11"]),
+    ("run_blocks: partition over a fixed number of blocks", POOL,
+     "const blocks blks(first_index, index_after_last, m_size, min_size);", "const blocks blks(first_index, index_after_last, 1, min_size);", 0, ["C11"]),
+    # ---- snapshots, read-only graphs (C16)
+    ("snapshot: elevation not copied", SNAP, "elevation_snapshot = elevation;", "", 0, ["C16"]),
+    ("snapshot: bfs levels not copied", SNAP, "graph_impl_snapshot.m_bfs_levels = graph_impl.m_bfs_levels;", "", 0, ["C16"]),
+    ("snapshot: elevation saved unconditionally", SNAP, "if (this->m_op_ptr->save_elevation())", "if (true)", 0, ["C16"]),
+    ("snapshot: single-flow copies column 1", SNAP, "receivers_col = xt::col(graph_impl.m_receivers, 0);", "receivers_col = xt::col(graph_impl.m_receivers, 1);", 0, ["C16"]),
+    ("update_routes: read-only guard removed", INL, "if (!m_writeable)", "if (false)", 0, ["C16"]),
+    ("set_base_levels: read-only guard removed", INL, "if (!m_writeable)", "if (false)", 1, ["C16"]),
+    ("set_mask: read-only guard removed", INL, "if (!m_writeable)", "if (false)", 2, ["C16"]),
+    ("snapshot graphs constructed writeable", INL, ": m_writeable(false)", ": m_writeable(true)", 0, ["C16"]),
+    ("update_routes: snapshots see the input elevation, not the corrected one", INL,
+     "op->save(*m_impl_ptr, m_graph_impl_snapshots, *elevation_ptr, m_elevation_snapshots);",
+     "op->save(*m_impl_ptr, m_graph_impl_snapshots, elevation, m_elevation_snapshots);", 0, ["C16"]),
+    # ---- node status (C17)
+    ("raster status: top border gets the bottom status", RASTER,
+     "get_top_view(temp_nodes_status) = m_bounds_status.top;", "get_top_view(temp_nodes_status) = m_bounds_status.bottom;", 0, ["C17"]),
+    ("raster status: corner takes the min of its borders", RASTER,
+     "std::max(c.row_border, c.col_border, detail::node_status_cmp)", "std::min(c.row_border, c.col_border, detail::node_status_cmp)", 0, ["C17"]),
+    ("raster status: second corner uses the left border", RASTER,
+     "{ 0, ncols - 1, m_bounds_status.top, m_bounds_status.right },", "{ 0, ncols - 1, m_bounds_status.top, m_bounds_status.left },", 0, ["C17"]),
+    ("raster status: range check of overrides dropped", RASTER,
+     "container_impl<container_type>::check_size(temp_nodes_status, idx.first, idx.second);", "", 0, ["C17"]),
+    ("raster status: looped overrides accepted", RASTER, "if (status == node_status::looped)", "if (false)", 0, ["C17"]),
+    ("raster bounds: symmetry check `||` -> `&&`", RASTER,
+     "is_looped(left) ^ is_looped(right) || is_looped(top) ^ is_looped(bottom)", "is_looped(left) ^ is_looped(right) && is_looped(top) ^ is_looped(bottom)", 0, ["C17"]),
+    ("border view: right border is column 0", XCONT, "return xt::view(data, xt::all(), xt::keep(-1));", "return xt::view(data, xt::all(), 0);", 0, ["C17"]),
+    ("profile status: last node gets the left status", PROFILE,
+     "temp_nodes_status(m_size - 1) = m_bounds_status.right;", "temp_nodes_status(m_size - 1) = m_bounds_status.left;", 0, ["C17"]),
+    ("nodes_indices(status): `==` -> `!=`", BASE, "grid.nodes_status().flat(idx) == status;", "grid.nodes_status().flat(idx) != status;", 0, ["C17"]),
+    ("default base levels at fixed_gradient nodes", INL,
+     "m_grid.nodes_indices(node_status::fixed_value)", "m_grid.nodes_indices(node_status::fixed_gradient)", 0, ["C17"]),
+    # ---- triangular mesh (C18)
+    ("trimesh: edge count incremented on first insertion", MESH, "if (!result.second)", "if (result.second)", 0, ["C18"]),
+    ("trimesh: boundary edges `count == 1` -> `count >= 1`", MESH, "if (count == 1)", "if (count >= 1)", 0, ["C18"]),
+    ("trimesh: neighbour added one way only", MESH, "m_neighbors_indices[edge_points.second].push_back(edge_points.first);", "", 0, ["C18"]),
+    ("trimesh: distance without the y square", MESH, "(y1 - y2) * (y1 - y2)", "(y1 - y2)", 0, ["C18"]),
+    ("trimesh: degree check `>` -> `>=`", MESH,
+     "node_neighbors.size() > static_cast<size_type>(N)", "node_neighbors.size() >= static_cast<size_type>(N)", 0, ["C18"]),
+    ("trimesh: default boundary status fixed_gradient", MESH,
+     "temp_nodes_status[idx] = node_status::fixed_value;", "temp_nodes_status[idx] = node_status::fixed_gradient;", 0, ["C18"]),
+    ("trimesh: looped accepted in the status map", MESH, "if (status == node_status::looped)", "if (false)", 0, ["C18"]),
+    ("trimesh areas: 0.25 -> 0.5 in the squared area", MESH, "= 0.25\n", "= 0.5\n", 0, ["C18"]),
+    ("trimesh areas: no floor at min()", MESH, "std::sqrt(std::max(area_square, just_above_zero))", "std::sqrt(area_square)", 0, ["C18"]),
+    ("trimesh areas: share divided by 3", MESH, "ce_ratios / (3 - 1);", "ce_ratios / 3;", 0, ["C18"]),
+    ("trimesh areas: isolated-node test `&&` -> `||`", MESH,
+     "m_nodes_areas(i) == 0 && neighbors_count_impl(i) == 0", "m_nodes_areas(i) == 0 || neighbors_count_impl(i) == 0", 0, ["C18"]),
+    # ---- operator sequence (C20)
+    ("add_operator: direction check inverted", OPS, "ptr->in_flowdir != m_out_flowdir)", "ptr->in_flowdir == m_out_flowdir)", 0, ["C20"]),
+    ("add_operator: non-single output keeps all_single_flow", OPS, "m_all_single_flow = false;", "m_all_single_flow = true;", 0, ["C20"]),
+    ("add_operator: output direction not updated", OPS, "m_out_flowdir = ptr->out_flowdir;", "", 0, ["C20"]),
+    ("add_operator: elevation_updated set from graph_updated", OPS, "if (ptr->elevation_updated)", "if (ptr->graph_updated)", 0, ["C20"]),
+    ("sequence: all_single_flow starts false", OPS, "bool m_all_single_flow = true;", "bool m_all_single_flow = false;", 0, ["C20"]),
+    ("update_snapshots: graph snapshot accepted with undefined direction", SNAP,
+     "if (m_out_flowdir == flow_direction::undefined)", "if (false)", 0, ["C20"]),
+    ("graph ctor: graph_updated check removed", INL, "if (!m_operators.graph_updated())", "if (false)", 0, ["C20"]),
+    ("graph ctor: direction check `==` -> `!=`", INL,
+     "if (m_operators.out_flowdir() == flow_direction::undefined)", "if (m_operators.out_flowdir() != flow_direction::undefined)", 0, ["C20"]),
+    ("update_routes: elevation always copied", INL, "if (m_operators.elevation_updated())", "if (true)", 1, ["C20"]),
+    ("update_routes: copy not refreshed from the argument", INL, "m_elevation_copy = elevation;", "", 0, ["C20"]),
 ]
 
 
@@ -202,7 +320,7 @@ def main():
             open(path, "w").write(replace_nth(src, old, new, nth))
             rc, msg, text = translate(root, os.path.join(tmp, "Generated_%02d.lean" % i))
             got = shapes(text)
-            fell_back = "SECTION flow_shapes: PATTERN NOT FOUND" in text
+            fell_back = any("SECTION %s: PATTERN NOT FOUND" % sec in text for sec in ("flow_shapes", "grid_shapes"))
             flipped = {g: [k for k, v in f.items() if not v] for g, f in got.items()}
             flipped = {g: ks for g, ks in flipped.items() if ks}
             detected = (not fell_back) and all(flipped.get(g) for g in expect)
@@ -216,6 +334,11 @@ def main():
         for n, label, rel, exp, status, flipped in rows:
             fl = "; ".join("%s: %s" % (g, ", ".join(ks)) for g, ks in sorted(flipped.items()))
             print("%3d  %-*s  %-9s %-9s  %s" % (n, w, label, exp, status, fl))
+        print("per group (facts; edits expected to flip a fact of the group: detected / total):")
+        for g in GROUPS:
+            mine = [r for r in rows if g in r[3].split(",")]
+            hit = [r for r in mine if r[5].get(g)]
+            print("  %s: %2d facts; edits %2d / %2d%s" % (g, len(base[g]), len(hit), len(mine), "" if len(hit) == len(mine) and len(mine) >= 3 else "   <-- CHECK"))
         print("%d edits, %d detected, %d not detected" % (len(rows), len(rows) - bad, bad))
         return 1 if bad else 0
     finally:
